@@ -498,11 +498,24 @@ func allPredicateHoldsAt(fn *ssa.Function, sl ssa.Value, at ssa.Instruction, t t
 	fl := &boolFlow{fn: fn, entry: false}
 	fl.edge = func(b *ssa.BasicBlock, i int) bool {
 		return anyEdgeFact(b, i, func(v ssa.Value, trueIdx int) bool {
-			if i != trueIdx {
-				return false
-			}
 			c, ok := v.(*ssa.Call)
 			if !ok {
+				return false
+			}
+			// !slices.ContainsFunc(xs, notT) / slices.IndexFunc(xs, notT) < 0: no element fails
+			// the assertion — the fact holds on the edge where the search found nothing
+			if g := c.Call.StaticCallee(); g != nil && len(c.Call.Args) == 2 {
+				o := g
+				if g.Origin() != nil {
+					o = g.Origin()
+				}
+				if o.Pkg != nil && o.Pkg.Pkg.Path() == "slices" && o.Name() == "ContainsFunc" && i != trueIdx {
+					if nt, ok := negatedTypeTest(c.Call.Args[1]); ok && types.Identical(nt, ta.AssertedType) && sameValue(c.Call.Args[0], sl) {
+						return true
+					}
+				}
+			}
+			if i != trueIdx {
 				return false
 			}
 			t, pidx, ok := allElemsPredicate(c.Call.StaticCallee())
@@ -737,4 +750,55 @@ func checkDivisions(w *World, r *Report, reach map[*ssa.Function]bool) {
 		})
 	}
 	r.Counts["integer divisions by non-constants"] = n
+}
+
+
+// negatedTypeTest: f is a function value `func(v interface{}) bool` of the package that returns
+// true exactly when v is NOT of some type T (`_, ok := v.(T); return !ok`); returns T.
+func negatedTypeTest(f ssa.Value) (types.Type, bool) {
+	var g *ssa.Function
+	switch x := f.(type) {
+	case *ssa.Function:
+		g = x
+	case *ssa.MakeClosure:
+		g, _ = x.Fn.(*ssa.Function)
+	}
+	if g == nil || len(g.Blocks) == 0 || len(g.Params) != 1 {
+		return nil, false
+	}
+	var t types.Type
+	ok := true
+	n := 0
+	instrsOf(g, func(in ssa.Instruction) {
+		ret, isRet := in.(*ssa.Return)
+		if !isRet || !ok {
+			return
+		}
+		n++
+		if len(ret.Results) != 1 {
+			ok = false
+			return
+		}
+		u, isNot := ret.Results[0].(*ssa.UnOp)
+		if !isNot || u.Op != token.NOT {
+			ok = false
+			return
+		}
+		ex, isEx := u.X.(*ssa.Extract)
+		if !isEx || ex.Index != 1 {
+			ok = false
+			return
+		}
+		ta, isTA := ex.Tuple.(*ssa.TypeAssert)
+		if !isTA || !ta.CommaOk || unspill(ta.X) != ssa.Value(g.Params[0]) {
+			ok = false
+			return
+		}
+		if t != nil && !types.Identical(t, ta.AssertedType) {
+			ok = false
+			return
+		}
+		t = ta.AssertedType
+	})
+	return t, ok && n > 0 && t != nil
 }
